@@ -76,6 +76,7 @@ class Ctx:
         self.states += tot['states']
         self.transitions += tot['transitions']
         self.traces += tot['events']
+        self.overflow_dropped = getattr(self, 'overflow_dropped', 0) + tot['overflow_dropped']
         return tot['rejects']
 
     # -- classification ------------------------------------------------------------------------
@@ -119,6 +120,7 @@ class Ctx:
             'model_checking_runs': self.mc_runs,
             'known_findings_hit': {k: v['count'] for k, v in self.known_hits.items()},
             'notes': self.notes,
+            'events_not_decided_tlc_32bit_overflow': getattr(self, 'overflow_dropped', 0),
         }
         cov.update(self.extra)
         if extra:
